@@ -194,12 +194,12 @@ static QSbasis *mk_basis (const char *cs, const char *rs, int ns, int nr)
 {
 	QSbasis *B = (QSbasis *) calloc (1, sizeof (QSbasis));
 	int n = strcmp (cs, "-") ? (int) strlen (cs) : 0, m = strcmp (rs, "-") ? (int) strlen (rs) : 0;
-	B->nstruct = ns >= 0 ? ns : n;
-	B->nrows = nr >= 0 ? nr : m;
+	B->nstruct = ns != INT_MIN ? ns : n;
+	B->nrows = nr != INT_MIN ? nr : m;
 	/* the arrays are as long as the *declared* sizes need (so that a size lie is the
 	 * library's problem to detect, not an overread manufactured by the harness) */
-	B->cstat = (char *) calloc ((B->nstruct > n ? B->nstruct : n) + 1, 1);
-	B->rstat = (char *) calloc ((B->nrows > m ? B->nrows : m) + 1, 1);
+	B->cstat = (char *) calloc ((size_t) (B->nstruct > n ? B->nstruct : n) + 1, 1);
+	B->rstat = (char *) calloc ((size_t) (B->nrows > m ? B->nrows : m) + 1, 1);
 	memcpy (B->cstat, n ? cs : "", n);
 	memcpy (B->rstat, m ? rs : "", m);
 	return B;
@@ -903,9 +903,9 @@ static void exec_tokens (void)
 	{
 		int bi = tk_handle ('b', NB);
 		const char *cs = tk (), *rs = tk ();
-		int ns = -1, nr = -1;
-		if (CUR < NT) ns = tk_int ();
-		if (CUR < NT) nr = tk_int ();
+		int ns = INT_MIN, nr = INT_MIN;	/* INT_MIN = "as long as the string" */
+		if (CUR < NT) { if (!strcmp (T[CUR], "=")) CUR++; else ns = tk_int (); }
+		if (CUR < NT) { if (!strcmp (T[CUR], "=")) CUR++; else nr = tk_int (); }
 		if (bad_args || ns > 10000000 || nr > 10000000) printf ("R MKBASIS SKIP args\n");
 		else { drop_basis (bi); BS[bi] = mk_basis (cs, rs, ns, nr); printf ("R MKBASIS OK rv=0\n"); }
 		goto DONE;
